@@ -7,6 +7,10 @@ hook_commits = subprocess.run(['git', '-C', '/repo', 'log', '--format=%h %s', '-
 
 # id -> (category, text, level_note, technique, design_ref)
 CLAIMED = {
+ "C18": ("proof",
+  "Contract proof over the real SSA of the reaction of the file system, HTTP endpoint and cloud blob providers to one source event, with ghost logs of the state-map operations (sync.Map Load/Store/Delete), the parser calls and the processor calls (OnCreated/OnUpdated/OnDeleted): a file/endpoint whose new content does not parse leaves state and processor untouched (previous version stays active); empty, vanished or failing sources are unloaded exactly when they were loaded; unknown content is created once, changed content updated once, unchanged content triggers nothing; the new hash is remembered exactly when the processor accepted the change; a received but unparsable HTTP response is classified as internal error (unless empty); every rule set fetched from a bucket is examined, OnCreated only for new ones, OnUpdated only for known ones with a different hash. All events and fetch outcomes, unbounded.",
+  "The convergence over whole histories is the induction over these per-event transition contracts plus sync.Map's documented semantics (pen and paper, DESIGN.md); the Kubernetes provider (informer callbacks) and the watcher goroutines/schedulers that deliver the events are not under contract. Trusted: sync.Map/bytes.Equal/slices.Contains/fsnotify.Event.Has specs, slicex.Subtract (trusted in-repo, reads only), errors.Is axioms, errorchain spec.",
+  "contract-based deductive verification (govc VC generation over go/ssa, z3/cvc5)", "DESIGN.md §6 C18"),
  "C17": ("proof",
   "Zero-annotation write-frame sweep over the real SSA: every function reachable from the Execute/Handle methods of the mechanisms (authenticators, authorizers, contextualizers, finalizers, error handlers; 260+ functions, recomputed on every run) is proved to store only into memory it allocated itself during the call, memory owned by the request context (ctxOwned), or fields guarded as init-only - never into the mechanism object or anything reachable from it. One obligation per store instruction (wframe#n), for all inputs; a new store in any of these functions generates a new obligation that must discharge (wildcard claims).",
   "Stores done by callees outside the cone (std library, third-party) are covered only through the effect-free/spec list; sync.Map/atomic based memoisation at package level is not a field store and is not seen; the ownership predicate ctxOwned is trusted for what heimdall.Context hands out. Found and fixed: MetadataEndpoint.Get mutating the shared endpoint (data race, reproduced with -race).",
